@@ -79,3 +79,7 @@ prop("C09", "exploration",
 prop("C10", "exploration",
      "real responder serving a real requestor A (sometimes paused by a block hook and resumed by the responder's operator) while a scripted second peer T, speaking through the real codec, sends 1-4 cancel / update / new-request messages carrying A's request ID at scheduler-chosen moments (queued, running, paused, completing); oracle: no requestor-cancelled notification, no update hook call (only T sends updates), A receives exactly the C02 reference, completed listener once with a success status, exactly one terminal status on the wire to A; distinct = distinct trace hash",
      _b(1200, 90, 50000, 1200))
+
+prop("C01", "exploration",
+     "real requestor (store = random subset of the DAG, sometimes failing commits, sometimes pausing at a block and resuming) against a scripted adversarial responder that speaks through the real codec: it computes the honest response stream with the reference traversal and applies 0-4 mutations drawn from {swap, drop, duplicate, wrong action, forged bytes, block of an unrelated DAG under the expected CID, invented entry, same bytes under another CID prefix, misplaced DAG block, withheld block}, cuts it into 1-4 entry messages, and varies the terminal status (early, repeated, failure codes), message replay and responses under a foreign request ID; oracle: delivered nodes are an in-order subsequence of the genuine traversal, every commit hashes to its link and carries the genuine bytes, commits are an in-order subsequence of the reference link loads; distinct = distinct trace hash",
+     _b(1200, 90, 50000, 1200), probes=["c01-blocks-stored", "c01-complete-delivery", "c01-incorrect-response-detected", "c01-resumed-against-adversary"])
